@@ -16,19 +16,28 @@ from props import c05
 warnings.simplefilter('ignore')
 
 META = {
-    'rule': '(D) spec validation: generated PyCore programs are run by the Lean semantics (pycore.run) and by CPython exec; printed lines, '
-            'ending and final globals must agree (programs the semantics calls stuck are counted as out-of-core, never compared). '
+    'rule': '(D) spec validation: generated PyCore programs (static local scoping incl. unbound locals, imports, handlers across the builtin '
+            'exception hierarchy, annotated locals) are run by the Lean semantics (pycore.run / pycore.runO) and by CPython exec (optimize 0 / 1); '
+            'printed lines, ending, final globals and import events must agree (programs the semantics calls stuck are counted as out-of-core, '
+            'never compared); the exception table of the semantics must equal the interpreter\'s builtins. '
             '(C) the Lean transform model prints the same text as minify() on those programs for every subset of the core-neutral '
-            'switches (the tie between theorem T01.6 and the code). (O) differential execution on the real code: generated runnable '
+            'switches; the model of applying a renaming (renModule, T01.13) prints the same text as minify(rename_locals only) for the renaming '
+            'read off the real output and that renaming satisfies modOK; the composed model hoistModule W (renModule R (transformM P)) prints the '
+            'same text as minify(P) with all defaults (and as minify(rename_locals + hoist_literals)) and modOK / hoistOK / distinct def names hold '
+            'for the witnesses read off the real output (T01.14, T01.15, T01.17); when such a tie breaks the program itself is executed both ways. '
+            '(O) differential execution on the real code: generated runnable '
             'programs (closures, nonlocal, classes, properties, generators, comprehensions, lambdas, try/finally, with, match, f-strings, '
             'imports, decorators, star/keyword calls, annotations, walrus, del, docstrings) plus the PyCore programs plus directed '
             'corner programs x option sets inside the thirteen default-on switches (defaults, none, each alone, each one off, random '
-            'subsets): stdout, ending (normal / exception type / exit status) and the summary of the public module namespace must be '
-            'equal. non-trivial = the minified text differs from the source and the program prints something; distinct by (program, options)',
-    'assumptions': ['observations are taken in-process with exec() in a fresh namespace dict, stdout captured, 5 s alarm',
-                    'instances and classes in the public namespace are compared by type name, base names, attribute names and attribute value summaries; functions only as "function" (their code objects legitimately differ)'],
-    'modelled_not_verified': ['renaming, hoisting, import combining and annotation removal have no PyCore theorem; they are decided by the oracle here and by the structural theorems of C02-C06, C09, C10',
-                              'PyCore covers a first-order fragment (no closures, classes, exceptions handlers, containers); the rest of the language is reached by the oracle only'],
+            'subsets): stdout, ending (normal / exception type / exit status), the summary of the public module namespace and the import events '
+            'must be equal. non-trivial = the minified text differs from the source and the program prints something; distinct by (program, options)',
+    'assumptions': ['observations are taken in-process with exec() in a fresh namespace dict, stdout captured, 5 s alarm; import events are recorded by wrapping builtins.__import__ for the program\'s own namespace',
+                    'instances and classes in the public namespace are compared by type name, base names, attribute names and attribute value summaries; functions only as "function" (their code objects legitimately differ)',
+                    'tools/renast.py and tools/minast.py read the renaming / hoisting witness off the real output by structural matching; a mistake there shows as a failed tie, not as a pass',
+                    'Spec/PyCore.lean is the meaning of behaviour on the core: an import is an event plus an opaque binding; print, range, __debug__ and the builtin exception names are not rebound; a def is in the static table from the start'],
+    'modelled_not_verified': ['renaming of globals, nested scopes (closures, nonlocal, classes, comprehensions, generators) have no PyCore theorem; they are decided by the oracle here and by the structural theorems of C02-C06, C09, C10',
+                              'annotations that are evaluated (parameters, returns, module level, class bodies) are outside the core (known findings F12b/c); a hoisted True/False inside a __debug__ comparison is outside T01.14 (counted out_of_model)',
+                              'PyCore covers a first-order fragment (no closures, classes, containers, exception objects); the rest of the language is reached by the oracle only'],
 }
 
 DEFAULT_ON = ['remove_variable_annotations', 'remove_return_annotations', 'remove_argument_annotations', 'remove_pass', 'combine_imports',
